@@ -9,7 +9,7 @@ import json, os, subprocess, sys
 from pathlib import Path
 VERIF = Path(__file__).resolve().parent.parent
 repo = Path(sys.argv[1]).resolve()
-subprocess.run(["git", "-C", str(repo), "checkout", "--", "."], check=True)
+subprocess.run(["git", "-C", str(repo), "checkout", "HEAD", "--", "."], check=True)
 a = subprocess.run(["git", "-C", str(repo), "apply", "--3way", str(VERIF / "harmless" / "refactors.patch.diff")], capture_output=True, text=True)
 if a.returncode != 0:
     print("PATCH-DOES-NOT-APPLY", a.stderr[-400:]); sys.exit(2)
@@ -21,6 +21,6 @@ for i in range(1, 21):
     line = [l for l in p.stdout.splitlines() if l.startswith(prop + " tier=") or l.startswith("VIOLATION")]
     print(prop, "exit", p.returncode, " | ".join(line)[:260], flush=True)
     bad += p.returncode != 0
-subprocess.run(["git", "-C", str(repo), "checkout", "--", "."], check=True)
+subprocess.run(["git", "-C", str(repo), "checkout", "HEAD", "--", "."], check=True)
 print("SUMMARY alarms on harmless refactors:", bad)
 sys.exit(1 if bad else 0)
